@@ -48,13 +48,20 @@ def _universe():
             "p3": P("p3", {"a", "c"}, False)}
 
 
+def _collisions(ptype):
+    """Built-in plug-ins whose name is also one of their method names (e.g. the 'default' estimator supports 'default')."""
+    return {"function_estimator": ["default/no-such-estimator"], "optimizer": ["scipy/no-such-method"], "sampler": ["scipy/no-such-sampler"],
+            "realization_filter": ["default/no-such-filter"], "plan_handler": ["default/no-such-handler"], "plan_step": ["default/no-such-step"]}[ptype]
+
+
 def _alphabet(ptype):
     adds = [("add", "p1", "p1", False), ("add", "P1", "p1", True), ("add", "p2", "p2", False), ("add", "P2", "p2", True),
             ("add", "p3", "p3", False), ("add", "P3", "p3", True), ("add", "p1", "p2", False)]
     builtin = {"optimizer": ["slsqp", "external/slsqp", "SciPy/SLSQP", "external/a"], "sampler": ["norm", "SCIPY/norm"],
                "realization_filter": ["sort-objective", "Default/sort-objective"], "function_estimator": ["mean", "DEFAULT/mean"],
                "plan_handler": ["tracker", "default/Tracker"], "plan_step": ["optimizer", "Default/optimizer"]}[ptype]
-    gets = ["a", "b", "C", "p1/a", "P1/B", "p2/a", "p3/a", "P3/C", "zz", "p1/zz", "nope/a"] + builtin
+    # "a/zz", "b/a": the part before the slash is no plug-in name but a method name of a discoverable plug-in
+    gets = ["a", "b", "C", "p1/a", "P1/B", "p2/a", "p3/a", "P3/C", "zz", "p1/zz", "nope/a", "a/zz", "b/a"] + builtin + _collisions(ptype)
     ops = adds + [("get", g) for g in gets] + [("sup", g) for g in ("a", "b", "p3/c", builtin[0])]
     return ops
 
